@@ -78,6 +78,15 @@ QuotLens == <<2, 3, 4, 5, 6, 7, 9, 10, 11, 17, 18, 19, 33, 34, 35, 65, 66>>
 QuotLead == {x \in [op : {"polyq"}, bits : {2, 7, 12}, len : 1..17, lead : {"11", "1u", "u1", "uu"}, coef : {4, 5}, ntt : BOOLEAN] :
                QuotLens[x.len] <= Cap(BitsSet[x.bits])}
 
+\* Large transforms (2^10 .. 2^14 in quick, .. 2^16 in thorough) at the modulus sizes where the packing classes of
+\* convolve_modn change (150, 245, 280, 310, 500 and one above each), for both convolution back ends.  Operands
+\* are period-2 sequences of full-size residues (every slot of the packed product is as large as it can get) or
+\* sparse (a few terms: any misplaced coefficient shows); TLC checks sampled output coefficients by closed forms
+\* proved equal to the definition in PolyBigMC.tla.  Not thinned.
+BigBits == {64, 150, 151, 245, 246, 280, 281, 310, 311, 320, 400, 500}
+BigLg == {10, 12, 13, 14} \cup (IF SizeCap > 1 THEN {15, 16} ELSE {})
+ConvBig == [op : {"conv_big"}, alg : {"ss_public", "ntt"}, bits : BigBits, lg : BigLg, pat : {"ptop", "prand", "sparse"}]
+
 Name(x) ==
   CASE x.op = "fint" -> [op |-> "fint", N |-> x.N, fop |-> FIntOps[x.fop], pa |-> FPats[x.pa], pb |-> FPats[x.pb]]
     [] x.op = "conv_ss" -> [op |-> "conv_ss", N |-> ConvClasses[x.cls].N, logpack |-> ConvClasses[x.cls].logpack,
@@ -87,10 +96,11 @@ Name(x) ==
                              off |-> Offsets[x.off], lens |-> LenPats[x.lens], coef |-> Coefs[x.coef]]
     [] x.op = "poly" -> [op |-> "poly", pop |-> PolyOps[x.pop], bits |-> BitsSet[x.bits], len |-> PolyLens[x.len],
                          lenpat |-> x.lenpat, coef |-> Coefs[x.coef], ntt |-> x.ntt]
+    [] x.op = "conv_big" -> x
     [] x.op = "polyq" -> [op |-> "poly", pop |-> "quot", bits |-> BitsSet[x.bits], len |-> QuotLens[x.len],
                           lenpat |-> x.lead, coef |-> Coefs[x.coef], ntt |-> x.ntt]
 
-Init == s \in FInt \cup ConvSS \cup ConvNTT \cup Poly \cup PolyTiny \cup QuotLead
+Init == s \in FInt \cup ConvSS \cup ConvNTT \cup Poly \cup PolyTiny \cup QuotLead \cup ConvBig
 Next == UNCHANGED s
 Emit == PrintT(<<"SHAPE", ToJson(Name(s))>>)
 =============================================================================
